@@ -323,6 +323,10 @@ impl FromStr for U256 {
     type Err = ParseIntError;
 
     fn from_str(s: &str) -> Result<Self, Self::Err> {
+        // Like the primitive integer types, a string without any digit is not a number.
+        if s.is_empty() {
+            return Err(ParseIntError::InvalidDigit);
+        }
         let decimal = s.trim_start_matches('0');
         if Self::MAX_DIGITS < decimal.chars().count() {
             return Err(ParseIntError::PosOverflow);
